@@ -308,7 +308,7 @@ func (c *conn) close() {
 	c.ctx.Cancel()
 	c.conn.Close()
 	c.closed.Set()
-	verifpoint.Point("conn.closed", verifpoint.Ptr(c), verifpoint.B(c.client), 0)
+	verifpoint.Point("conn.closed", verifpoint.Addr(c), verifpoint.B(c.client), 0)
 	c.writeq.Close()
 }
 
@@ -324,7 +324,7 @@ func (c *conn) closeChannels() {
 		return
 	}
 	c.channelsClosed.Store(true)
-	verifpoint.Point("conn.closeChannels", verifpoint.Ptr(c), int64(c.channels.Len()), 0)
+	verifpoint.Point("conn.closeChannels", verifpoint.Addr(c), int64(c.channels.Len()), 0)
 
 	c.channels.Range(func(_ bin.Bin128, ch internalChannel) bool {
 		ch.free()
@@ -357,7 +357,7 @@ func (c *conn) createChannel() (Channel, bool, status.Status) {
 
 	// Add channel
 	c.channels.Set(id, ch)
-	verifpoint.Point("conn.createChannel.added", verifpoint.Ptr(ch), 0, 0)
+	verifpoint.Point("conn.createChannel.added", verifpoint.Addr(ch), 0, 0)
 	c.maybeChannelsReached()
 
 	// Check again
@@ -429,7 +429,7 @@ func (c *conn) addClosed(fn func()) int64 {
 	// Add listener
 	id := c.closedListenerSeq.Add(1)
 	c.closedListeners.Set(id, fn)
-	verifpoint.Point("conn.listener.added", verifpoint.Ptr(c), id, 0)
+	verifpoint.Point("conn.listener.added", verifpoint.Addr(c), id, 0)
 
 	// Check again if closed
 	if c.closed.IsSet() {
